@@ -54,7 +54,7 @@ ErrOf(o) ==
     CASE o = "rpcerr"  -> <<"ValueError", "">>
       [] o = "rpcerrk" -> <<"PermissionError", "custom_kind">>
       [] OTHER         -> <<"RuntimeError", "">>
-IsFail(o) == o \in {"rpcerr", "rpcerrk", "plain", "wrapped", "custom", "panic", "panicerr"}
+IsFail(o) == o \in {"rpcerr", "rpcerrk", "plain", "wrapped", "wraprpc", "wraptyped", "custom", "panic", "panicerr"}
 IsProd(m) == m \in {"prod", "prodh", "dynp"}
 HasHdr(c) == c.hdr
 
@@ -66,7 +66,7 @@ ErrsOf(bs) == LET f == SelectSeq(bs, LAMBDA b : b[1] = "exc") IN [i \in 1..Len(f
 
 --------------------------------------------------------------------------
 (* Call alphabets.                                                         *)
-Outcomes == {"value", "rpcerr", "rpcerrk", "plain", "wrapped", "custom", "panic", "panicerr"}
+Outcomes == {"value", "rpcerr", "rpcerrk", "plain", "wrapped", "wraprpc", "wraptyped", "custom", "panic", "panicerr"}
 OneLog == { <<>>, << <<"INFO", "m1">> >>, << <<"DEBUG", "m1">>, <<"ERROR", "m2">> >> }
 UnaryCalls == [k : {"unary"}, m : {"u_val", "u_void"}, pm : {"ok"}, logs : OneLog, lvl : {"", "INFO"}, o : Outcomes]
               \cup [k : {"unary"}, m : {"u_val"}, pm : {"mismatch"}, logs : {<<>>}, lvl : {""}, o : {"value"}]
